@@ -152,6 +152,27 @@ func ruleTotalOrder(id string) func(p *Prog, r *Res) {
 						}
 					}
 				}
+				if call, ok := e.(*ast.CallExpr); ok {
+					// a helper of the package every return of which is a literal that decides ties by id
+					if fn := p.Callee(f.Pkg, call); fn != nil {
+						if h := p.FnOfObj(fn); h != nil && h.Short == "index" && h.Body() != nil {
+							nRet, allTotal := 0, true
+							inspectShallow(h.Body(), func(x ast.Node) bool {
+								if ret, ok := x.(*ast.ReturnStmt); ok && len(ret.Results) == 1 {
+									nRet++
+									if fl, ok := ast.Unparen(ret.Results[0]).(*ast.FuncLit); !ok || !totalLit(fl) {
+										allTotal = false
+									}
+								}
+								return true
+							})
+							if nRet > 0 && allTotal {
+								return true, ""
+							}
+							return false, "the result of " + h.Key() + ", which does not always return a comparison that looks at StreamID"
+						}
+					}
+				}
 				if fl, ok := e.(*ast.FuncLit); ok {
 					if totalLit(fl) {
 						return true, ""
